@@ -14,6 +14,7 @@ Definition E_wit : env :=
      e_fmt := fun c f => if N.eqb c 1 && N.eqb f 1 then [it_fc] else [];
      e_user := fun o => if N.eqb o 0 then [it_st] else [];
      e_parse := fun k => if str_eqb k (lit "sel") then Some tree_sel else None;
+     e_bkvars := fun _ => []; e_fmtvars := fun _ _ => []; e_uservars := fun _ => [];
      e_src := fun _ => SigmaErr 8;
      e_files := [] |}.
 Definition r_win : rule :=
@@ -23,39 +24,39 @@ Definition r_win : rule :=
 
 (* D18: one user pipeline object given to two backends; init A, init B, then A.convert_rule:
    the state written by the items lands in B's pipeline object *)
-Definition ops_reown : list op := [ONew 0 (Some 0) false; ONew 0 (Some 0) false; OInit 0%nat 2; OInit 1%nat 2].
+Definition ops_reown : list op := [ONew 0 (Some 0) false []; ONew 0 (Some 0) false []; OInit 0%nat 2; OInit 1%nat 2].
 
 Lemma reown_refuted :
   exists E ops b bk fmt r,
     let w := fst (run E init ops) in
     nth_error (w_bks w) b = Some bk /\ fmt_ok bk fmt = true /\ owns_ok E w bk = false /\
     o_res (out_obs (snd (step E w (OConvRule b r fmt)))) = Ok [lit "index=default (fieldC=1)"] /\
-    o_res (ideal_obs_rule E (b_cls bk) (b_user bk) (b_collect bk) fmt r) = Ok [lit "index=win (fieldC=1)"].
+    o_res (ideal_obs_rule E (b_cls bk) (b_user bk) (b_collect bk) (b_opts bk) fmt r) = Ok [lit "index=win (fieldC=1)"].
 Proof.
   exists E_wit, ops_reown, 0%nat,
-         {| b_cls := 0; b_user := Some 0; b_collect := false; b_last := Some (0%nat, 2) |}, 2, r_win.
+         {| b_cls := 0; b_user := Some 0; b_collect := false; b_opts := []; b_last := Some (0%nat, 2) |}, 2, r_win.
   vm_compute. repeat split.
 Qed.
 
 (* D30: convert() for format 1 (whose class-level format pipeline maps fieldC), then
    convert_rule(..., format 2) on the same backend reuses the pipeline object built for format 1 *)
-Definition ops_stale : list op := [ONew 1 None false; OConvColl 0%nat [r_win] 1].
+Definition ops_stale : list op := [ONew 1 None false []; OConvColl 0%nat [r_win] 1].
 
 Lemma stale_format_refuted :
   exists E ops b bk fmt r,
     let w := fst (run E init ops) in
     nth_error (w_bks w) b = Some bk /\ owns_ok E w bk = true /\ fmt_ok bk fmt = false /\
     o_res (out_obs (snd (step E w (OConvRule b r fmt)))) = Ok [lit "index=default (mappedC=1)"] /\
-    o_res (ideal_obs_rule E (b_cls bk) (b_user bk) (b_collect bk) fmt r) = Ok [lit "index=default (fieldC=1)"].
+    o_res (ideal_obs_rule E (b_cls bk) (b_user bk) (b_collect bk) (b_opts bk) fmt r) = Ok [lit "index=default (fieldC=1)"].
 Proof.
   exists E_wit, ops_stale, 0%nat,
-         {| b_cls := 1; b_user := None; b_collect := false; b_last := Some (0%nat, 1) |}, 2, r_win.
+         {| b_cls := 1; b_user := None; b_collect := false; b_opts := []; b_last := Some (0%nat, 1) |}, 2, r_win.
   vm_compute. repeat split.
 Qed.
 
 (* the premises of the frame theorem are inhabited by a non-trivial history *)
 Lemma premises_inhabited :
-  let w := fst (run E_wit init [ONew 0 (Some 0) false; OConvRule 0%nat r_win 2; OLoad r_win]) in
+  let w := fst (run E_wit init [ONew 0 (Some 0) false []; OConvRule 0%nat r_win 2; OLoad r_win]) in
   exists bk, nth_error (w_bks w) 0 = Some bk /\ owns_ok E_wit w bk = true /\ fmt_ok bk 2 = true /\
              b_last bk <> None.
 Proof. vm_compute. eexists. repeat split. discriminate. Qed.
